@@ -117,3 +117,83 @@ func (f *File) Close() error {
 	}
 	return f.f.Close()
 }
+
+func Create(name string) (*File, error) {
+	if err, _ := op("create", name, 0); err != nil {
+		return nil, err
+	}
+	f, err := os.Create(name)
+	if err != nil {
+		return nil, err
+	}
+	return &File{f}, nil
+}
+
+func OpenFile(name string, flag int, perm os.FileMode) (*File, error) {
+	if err, _ := op("openfile", name, 0); err != nil {
+		return nil, err
+	}
+	f, err := os.OpenFile(name, flag, perm)
+	if err != nil {
+		return nil, err
+	}
+	return &File{f}, nil
+}
+
+// WriteFile is create + one write + close, each a crash point.
+func WriteFile(name string, data []byte, perm os.FileMode) error {
+	f, err := OpenFile(name, os.O_WRONLY|os.O_CREATE|os.O_TRUNC, perm)
+	if err != nil {
+		return err
+	}
+	_, err = f.Write(data)
+	if err1 := f.Close(); err1 != nil && err == nil {
+		err = err1
+	}
+	return err
+}
+
+func Mkdir(name string, perm os.FileMode) error {
+	if err, _ := op("mkdir", name, 0); err != nil {
+		return err
+	}
+	return os.Mkdir(name, perm)
+}
+
+func RemoveAll(path string) error {
+	if err, _ := op("removeall", path, 0); err != nil {
+		return err
+	}
+	return os.RemoveAll(path)
+}
+
+func Link(oldname, newname string) error {
+	if err, _ := op("link", oldname+" -> "+newname, 0); err != nil {
+		return err
+	}
+	return os.Link(oldname, newname)
+}
+
+func Symlink(oldname, newname string) error {
+	if err, _ := op("symlink", oldname+" -> "+newname, 0); err != nil {
+		return err
+	}
+	return os.Symlink(oldname, newname)
+}
+
+func (f *File) Sync() error {
+	if err, _ := op("sync", f.f.Name(), 0); err != nil {
+		return err
+	}
+	return f.f.Sync()
+}
+
+func (f *File) Truncate(size int64) error {
+	if err, _ := op("truncate", f.f.Name(), 0); err != nil {
+		return err
+	}
+	return f.f.Truncate(size)
+}
+
+func (f *File) Stat() (os.FileInfo, error) { return f.f.Stat() }
+func (f *File) Fd() uintptr                { return f.f.Fd() }
